@@ -21,7 +21,7 @@ typedef size_t SortElemsVectorType_size_type;
 /* ghost: the witness xsl:sort element, its four attribute value templates (0 = attribute absent), their values, and whether each is a
    plain string (evaluate assigns) or contains {expressions} (evaluate APPENDS to the buffer: AVT.hpp evaluate / AVT.cpp doEvaluate) */
 size_t g_w; ElemSort g_elem_w; AVT g_avt_w[A_COUNT]; bool g_has_w[A_COUNT]; bool g_simple_w[A_COUNT]; int g_val_w[A_COUNT];
-size_t g_npushed; const XStr* g_key_w_lang; bool g_sorted;
+size_t g_npushed; const XStr* g_key_w_lang; bool g_sorted; bool g_keys_guarded;
 #define W_VAL(a)  (g_has_w[a] ? g_val_w[a] : V_EMPTY)        /* the effective value of attribute a of the witness element */
 #define W_CASE    (W_VAL(A_CASEORDER) == V_UPPER ? eUpperFirst : W_VAL(A_CASEORDER) == V_LOWER ? eLowerFirst : eDefault)
 
@@ -49,8 +49,11 @@ XStr* xv_new_strings(size_t n)
 __CPROVER_requires(n <= 4096) __CPROVER_assigns()
 __CPROVER_ensures(__CPROVER_is_fresh(__CPROVER_return_value, (n + 1) * sizeof(XStr)) && (g_w < n ==> __CPROVER_return_value[g_w].val == V_EMPTY)) ;
 /* keys.push_back(NodeSortKey(ctx, select, treatAsNumbers, descending, caseOrder, langString, resolver)): the key keeps a POINTER to langString */
+/* CollectionClearGuard<NodeSortKeyVectorType> guard(keys): the sorter's key vector is cleared on EVERY exit of sortChildren */
+void xv_guard_keys(void) __CPROVER_requires(1) __CPROVER_assigns(g_keys_guarded) __CPROVER_ensures(g_keys_guarded == true) ;
 void xv_push_key(const ElemSort* sort, bool treatAsNumbers, bool descending, int caseOrder, const XStr* lang)
 __CPROVER_requires(sort != 0 && __CPROVER_r_ok(lang, sizeof(*lang)))
+__CPROVER_requires(/* building a later key can throw (a bad order / data-type value): keys go into the long-lived sorter only under the guard, so an aborted transformation leaves none behind (C06) */ g_keys_guarded == true)
 __CPROVER_requires(/* key i is built from xsl:sort element i */ (g_npushed == g_w) == (sort == &g_elem_w))
 __CPROVER_requires(/* data-type: numeric iff THIS element's data-type attribute is "number" */ g_npushed == g_w ==> treatAsNumbers == (W_VAL(A_DATATYPE) == V_NUMBER))
 __CPROVER_requires(/* order: descending iff THIS element's order attribute is "descending" */ g_npushed == g_w ==> descending == (W_VAL(A_ORDER) == V_DESCENDING))
@@ -69,7 +72,7 @@ NodeSorter* xv_sorter(StylesheetExecutionContext* e) __CPROVER_requires(1) __CPR
 @@FN sortChildren@@
 void h_sortChildren(void)
 {
-    size_t w; g_w = w; g_npushed = 0; g_key_w_lang = 0; g_sorted = false;
+    size_t w; g_w = w; g_npushed = 0; g_key_w_lang = 0; g_sorted = false; g_keys_guarded = false;
     for (int a = 0; a < A_COUNT; ++a) { bool h, s; int v; g_has_w[a] = XV_BOOL(h); g_simple_w[a] = XV_BOOL(s); g_val_w[a] = v; }
     Self* s; sortChildren(s, 0, 0, 0);
 }
@@ -79,7 +82,7 @@ R = [
      (r'typedef [\w:]+\s+(?:NodeSortKeyVectorType|SetAndRestoreCurrentStackFrameIndex|ContextNodeListPushAndPop);', '', 3),
      (r'NodeSorter\*\s+sorter = executionContext\.getNodeSorter\(\);', 'NodeSorter* sorter = xv_sorter(executionContext);', 1),
      (r'NodeSortKeyVectorType&\s+keys = sorter->getSortKeys\(\);\s*assert\(keys\.empty\(\) == true\);', '', 1),
-     (r'CollectionClearGuard<NodeSortKeyVectorType>\s+guard\(keys\);', '', 1),
+     (r'CollectionClearGuard<NodeSortKeyVectorType>\s+guard\(keys\);', 'xv_guard_keys();', 1),
      (r'keys\.reserve\(m_sortElemsCount\);', '', 1),
      # the string buffers: cached strings borrowed from the execution context (empty when borrowed) ...
      (r'const StylesheetExecutionContext::GetCachedString\s+(\w+)\(executionContext\);', r'XStr \1 = { V_EMPTY };', (1, 2)),
@@ -117,12 +120,12 @@ R = [
      (r'return &sortedNodeList;', 'return sortedNodeList;', 1)]
 
 CONTRACT = '''__CPROVER_requires(__CPROVER_is_fresh(self, sizeof(*self)) && self->m_sortElemsCount >= 1 && self->m_sortElemsCount <= 4096)
-__CPROVER_requires(g_npushed == 0 && g_sorted == false)
-__CPROVER_assigns(g_npushed, g_key_w_lang, g_sorted)
+__CPROVER_requires(g_npushed == 0 && g_sorted == false && g_keys_guarded == false)
+__CPROVER_assigns(g_npushed, g_key_w_lang, g_sorted, g_keys_guarded)
 __CPROVER_ensures(/* the nodes are sorted once, with one key per xsl:sort child */ g_sorted == true && g_npushed == self->m_sortElemsCount)'''
 
 LOOP = '''__CPROVER_assigns(i, g_npushed, g_key_w_lang, scratchString_p->val, XV_LANG_ASSIGNS)
-__CPROVER_loop_invariant(i <= self->m_sortElemsCount && g_npushed == i)
+__CPROVER_loop_invariant(i <= self->m_sortElemsCount && g_npushed == i && g_keys_guarded == __CPROVER_loop_entry(g_keys_guarded))
 __CPROVER_loop_invariant(/* the scratch buffer is empty at the start of every xsl:sort element */ scratchString_p->val == V_EMPTY)
 __CPROVER_loop_invariant(/* the language buffer of a later xsl:sort element is still empty (an attribute value template appends to it) */ i <= g_w && g_w < self->m_sortElemsCount ==> XV_LANG_HOME->val == V_EMPTY)
 __CPROVER_loop_invariant(/* a pushed key keeps the language of its own xsl:sort element while the later elements are evaluated */ i > g_w ==> (g_key_w_lang == XV_LANG_HOME && XV_LANG_HOME->val == W_VAL(A_LANG)))
@@ -138,7 +141,7 @@ def gen(fn_texts, blk_texts=None):
 
 UNIT = Unit(
     name='c16_sortkeys',
-    props=['C16'],
+    props=['C16', 'C06'],
     functions=[
         Fn(EF, r'^ElemForEach::sortChildren\(', 'sortChildren',
            'const NodeRefListBase* sortChildren(const Self* self, StylesheetExecutionContext* executionContext, const NodeRefListBase* selectedNodeList, MutableNodeRefList* sortedNodeList)',
@@ -147,7 +150,7 @@ UNIT = Unit(
     template=TEMPLATE,
     gen=gen,
     jobs=[Job('sortChildren', 'h_sortChildren', enforce=['sortChildren'],
-              replace=['xv_sort_elem', 'xv_avt', 'xv_avt_evaluate', 'xv_qname_no_namespace', 'xv_error', 'xv_warn', 'xv_new_strings', 'xv_push_key', 'xv_sort', 'xv_sorter'],
+              replace=['xv_sort_elem', 'xv_avt', 'xv_avt_evaluate', 'xv_qname_no_namespace', 'xv_error', 'xv_warn', 'xv_new_strings', 'xv_push_key', 'xv_guard_keys', 'xv_sort', 'xv_sorter'],
               loop_contracts=True, reach='all', timeout=600, min_obligations=10)],
     mutants=[
         Mutant('lang_string_shared', EF, r'XalanDOMString&     langString = langStrings\[i\];', 'XalanDOMString&     langString = langStrings[0];', expect='language'),
